@@ -192,6 +192,11 @@ func (lc *linCtx) proveAll(b *ssa.BasicBlock, extra []cons, g cons) (bool, strin
 		}
 		H = append(H, lc.factsFor(forms, vi)...)
 		if !entails(H, g) {
+			if !lc.noElemFallback {
+				if ok, det := lc.proveViaElemSources(g); ok {
+					return true, det
+				}
+			}
 			return false, "path hypotheses {" + consList(relevant(H, g.e)) + "} do not entail " + g.String()
 		}
 		if used == "" {
